@@ -4,7 +4,7 @@ From SV Require Import Base Json Canon Sync SyncObs CorrC13 CorrC14 SyncProofs.
 
 Section ByKeyLoop.
   Variable cf : cfg.
-  Variable ks : option (str -> bool).
+  Variable ks : option (str -> option bool).
   Variable root : str.
   Variable dry : bool.
   Variable rec : json -> json -> str -> bool -> list str -> json * list str * option exn.
@@ -27,7 +27,8 @@ Section ByKeyLoop.
                   | None => bk_loop rest d' sk'
                   end
               | _ =>
-                  if selected ks (root ++ k) then bk_loop rest (pset dry k v d) sk
+                  if ks_raises ks (root ++ k) then (d, sk, Some EOther)
+                  else if selected ks (root ++ k) then bk_loop rest (pset dry k v d) sk
                   else bk_loop rest d ((root ++ k) :: sk)
               end
         | None => bk_loop rest (pset dry k v d) sk
@@ -67,7 +68,7 @@ Proof. intros. unfold pset. destruct dry; [reflexivity|]. apply alookup_aset_oth
 
 Section OnlySelected.
   Variable cf : cfg.
-  Variable ks : option (str -> bool).
+  Variable ks : option (str -> option bool).
 
   (* what only_selected asks of one source item, as a function of the destination entry before / after *)
   Definition okitem (prefix : str) (k : str) (x : json) (oy oy' : option json) : bool :=
@@ -157,10 +158,16 @@ Section OnlySelected.
         - intros k0 Hn. rewrite I2 by tauto. apply Hfr. intro; subst. tauto. }
       assert (Hkd : alookup k d = alookup k d0) by (apply Hd; left; reflexivity).
       destruct (alookup k d) as [y|] eqn:Ey.
-      + destruct (py_eq y x) eqn:Epy.
+      + assert (Stop : (forall k0 x0, (k, x) = (k0, x0) \/ In (k0, x0) rest ->
+                                        okitem root k0 x0 (alookup k0 d0) (alookup k0 d) = true)
+                         /\ (forall k0, ~ (k = k0 \/ In k0 (map fst rest)) -> alookup k0 d = alookup k0 d)).
+        { split; [|reflexivity]. intros k0 x0 H0. rewrite Hd; [apply okitem_unchanged|].
+          destruct H0 as [Heq|Hin]; [inversion Heq; left; reflexivity|right; apply (in_map fst) in Hin; exact Hin]. }
+        destruct (py_eq y x) eqn:Epy.
         * apply Gen; [reflexivity|]. rewrite <- Hkd, Ey. apply okitem_unchanged.
         * destruct x as [| | | | | |xs];
-            try (destruct (selected ks (root ++ k)) eqn:Es;
+            try (destruct (ks_raises ks (root ++ k)); [exact Stop|];
+                 destruct (selected ks (root ++ k)) eqn:Es;
                  [ apply Gen; [intros; apply pset_frame; assumption|];
                    rewrite <- Hkd; unfold okitem; rewrite Epy; simpl; rewrite Es; apply orb_true_r
                  | apply Gen; [reflexivity|]; rewrite <- Hkd, Ey; apply okitem_unchanged ]).
@@ -277,7 +284,7 @@ Proof.
   destruct (alookup k d) as [y|] eqn:Ey; [|apply IH; assumption].
   destruct (py_eq y x); [apply IH; assumption|].
   destruct x as [| | | | | |xs];
-    try (destruct (selected ks (root ++ k)); apply IH; assumption).
+    try (destruct (ks_raises ks (root ++ k)); [reflexivity|]; destruct (selected ks (root ++ k)); apply IH; assumption).
   destruct H16 as [H16|H16]; [|simpl in H16; discriminate].
   unfold nested_dry. rewrite H16.
   pose proof (Hrec k (JObj xs) (or_introl eq_refl) y (child_root cf root k) sk) as R.
@@ -483,7 +490,7 @@ Qed.
 (* ------------------------------------------------------------------ keys only in the destination (C13) *)
 Section KeysKept.
   Variable cf : cfg.
-  Variable ks : option (str -> bool).
+  Variable ks : option (str -> option bool).
   Variable root : str.
   Variable dry : bool.
   Variable rec : json -> json -> str -> bool -> list str -> json * list str * option exn.
@@ -520,10 +527,16 @@ Section KeysKept.
         - intros k0 Hn. rewrite I2 by tauto. apply Hfr. intro; subst. tauto. }
       assert (Hkd : alookup k d = alookup k d0) by (apply Hd; left; reflexivity).
       destruct (alookup k d) as [y|] eqn:Ey.
-      + destruct (py_eq y x) eqn:Epy.
+      + assert (Stop : (forall k0 x0, (k, x) = (k0, x0) \/ In (k0, x0) rest ->
+                                        item_out k0 x0 (alookup k0 d0) (alookup k0 d))
+                         /\ (forall k0, ~ (k = k0 \/ In k0 (map fst rest)) -> alookup k0 d = alookup k0 d)).
+        { split; [|reflexivity]. intros k0 x0 H0. left. apply Hd.
+          destruct H0 as [Heq|Hin]; [inversion Heq; left; reflexivity|right; apply (in_map fst) in Hin; exact Hin]. }
+        destruct (py_eq y x) eqn:Epy.
         * apply Gen; [reflexivity|]. left. congruence.
         * destruct x as [| | | | | |xs];
-            try (destruct (selected ks (root ++ k)) eqn:Es;
+            try (destruct (ks_raises ks (root ++ k)); [exact Stop|];
+                 destruct (selected ks (root ++ k)) eqn:Es;
                  [ apply Gen; [intros; apply pset_frame; assumption|];
                    unfold pset; destruct dry; [left; congruence|right; left; rewrite alookup_aset_same; auto]
                  | apply Gen; [reflexivity|]; left; congruence ]).
